@@ -546,6 +546,8 @@ func checkC09(ctx *Ctx) *Result {
 	r.rule("R9.1", "invariant debug ⇒ pointer ≠ nil is preserved by every path of every writer", 3)
 	r.rule("R9.2", "documented transitions of creation, SetDebug, Reconfigure(nil / non-nil / invalid)", 3)
 	r.rule("R9.3", "debug mode is consulted only for preflights and only colours failing ones (status, partial CORS headers, full allowed-header list)", 50)
+	r.rule("R9.6", "partial headers are complete: a debug-mode answer carries Access-Control-Allow-Origin whenever the origin step passed and Access-Control-Allow-Methods whenever the method step passed for a non-safelisted method, whatever fails later", 50)
+	r.rule("R9.5", "the full allowed-header list: every debug-mode preflight that reaches the header step with names configured (no `*`) carries the configured list as Access-Control-Allow-Headers and never runs the debug-off check of the requested names", 20)
 	r.rule("R9.4", "partial headers: every CORS header of a debug-mode answer is granted by a step that passed on that path (its step atoms are valued as on some successful debug-off preflight writing the same header from the same source)", 50)
 	r.rule("R8.3", "builder: (nil, nil) for a nil Config; non-nil configuration with a nil error; nil configuration with an error", 1)
 	builderRule(ctx, r, "R8.3")
@@ -874,6 +876,51 @@ func checkDebugColours(ctx *Ctx, r *Result) {
 			}
 		}
 		r.check(bad == "", "R9.4", b.Describe(), "", bad, len(b.Writes))
+	}
+	// R9.6: "partial headers", the other direction — what a passed step grants
+	// is in the debug-mode answer even when a later step fails
+	for _, b := range on {
+		if b.A[aDebug] != 1 || !(b.Is(aParseOK) && (b.Is(aContains) || allowAllPath(ctx, b))) {
+			continue
+		}
+		missing := ""
+		if len(b.WritesTo(hACAO)) == 0 {
+			missing = hACAO
+		}
+		pnaFailed := b.Is(aPNTrue) && b.Not(aPNA) && b.Not(aPNANoCors)
+		if !pnaFailed && b.Not(aSafe) && (b.Is(aListed) || b.Is(aAnyMethod)) && len(b.WritesTo(hACAM)) == 0 {
+			missing = hACAM
+		}
+		r.check(missing == "", "R9.6", b.Describe(), "", "a debug-mode answer lacks "+missing+" although the step that grants it passed on this path", 1)
+	}
+	// R9.5: "the full allowed-header list" — a debug-mode preflight that reaches
+	// the header step with names configured answers with the configured list,
+	// whatever the request's Access-Control-Request-Headers lines look like
+	nList := 0
+	for _, b := range on {
+		if b.A[aDebug] != 1 || b.A[aACRH] != 1 || b.A[aAsterisk] != -1 || b.A[aNoACAH] == 1 {
+			continue
+		}
+		if !(b.Is(aParseOK) && (b.Is(aContains) || allowAllPath(ctx, b))) {
+			continue
+		}
+		if b.Is(aPNTrue) && b.Not(aPNA) && b.Not(aPNANoCors) {
+			continue // refused at the private-network step
+		}
+		if b.Not(aSafe) && b.Not(aAnyMethod) && b.Not(aListed) {
+			continue // refused at the method step
+		}
+		nList++
+		list := false
+		for _, w := range b.WritesTo(hACAH) {
+			if w.Tag == "cfg.acah" {
+				list = true
+			}
+		}
+		r.check(list && b.A[aCheck] == 0, "R9.5", b.Describe(), "", "a debug-mode preflight that reaches the header step does not answer with the configured Access-Control-Allow-Headers list (or consults the debug-off check of the requested names)", 1)
+	}
+	if nList == 0 {
+		r.undecided("R9.5", "debug-mode header step", "no debug-mode path reaches the header step")
 	}
 	allowedKeys := map[string]bool{hACAO: true, hACAC: true, hACAPN: true, hACAM: true, hACAH: true, hACMA: true}
 	consistent := func(a, b *ReqPath) bool {
